@@ -100,78 +100,17 @@ Fixpoint targets (d : node) (ps : list (option N * pyval)) : list target :=
 Definition delete_spec (d : node) (ps : list (option N * pyval)) : node :=
   prune (inT (targets d ps)) d.
 
-(* ---- the guard of the known finding (DESIGN #15 and its relatives) ----
-   The deletion loop is only right when, in the order in which it processes the
-   coordinates, no node is named twice and the positions named in one sequence
-   strictly decrease, a negative index coming first.  A single path without
-   Collectors yields its matches in document order and the loop walks them in
-   reverse, so this holds; `(a[0])+(a[0])` or `(a[2])+(a[0])` break it. *)
-Definition is_neg (r : pyval) : bool := match r with PInt z => (z <? 0)%Z | _ => false end.
-
-Definition step_ok (d : node) (T : list target) (po : option N) (r : pyval) : bool :=
-  match po with
-  | None => false
-  | Some o =>
-      match objs o d with
-      | [] => true                                     (* object not in the document: nothing happens *)
-      | [n0] =>
-          match n0, child_index r n0 with
-          | NSeq _ els, Some i =>
-              forallb (fun k => negb (inT T o k)) (seq 0 (S i))
-              && (negb (is_neg r) || forallb (fun k => negb (inT T o k)) (seq 0 (length els)))
-          | NSeq _ els, None => match r with PInt z => (Z.of_nat (length els) <=? z)%Z | _ => false end
-          | NMap _ _, Some i => negb (inT T o i)
-          | NMap _ _, None => true
-          | NSet _ _, Some i => negb (inT T o i)
-          | NSet _ _, None => false
-          | NLeaf _ _, _ => true
-          end
-      | _ => false
-      end
-  end.
-
-Fixpoint ordered_from (d : node) (T : list target) (ps : list (option N * pyval)) : bool :=
-  match ps with
-  | [] => true
-  | (po, r) :: rest =>
-      step_ok d T po r &&
-      ordered_from d (match target_of d po r with Some t => t :: T | None => T end) rest
-  end.
-
-Definition no_dup_no_disorder (d : node) (ps : list (option N * pyval)) : bool := ordered_from d [] ps.
+(* ---- the only hypothesis on the gathered coordinates: each one LOCATES a
+   node of the document (its parent is a container object of the document and
+   its parentref names one of that container's children).  How often and in
+   what order the nodes were gathered does not matter (fix 17f9ea8; formerly
+   the guard no_dup_no_disorder of known finding F15). *)
+Definition del_located (d : node) (q : option N * pyval) : bool :=
+  match target_of d (fst q) (snd q) with Some _ => true | None => false end.
+Definition del_all_located (d : node) (ps : list (option N * pyval)) : bool := forallb (del_located d) ps.
 
 (* computable form of wf_doc *)
 Fixpoint nodupb (l : list N) : bool :=
   match l with [] => true | x :: r => negb (existsb (N.eqb x) r) && nodupb r end.
 Definition wf_docb (d : node) : bool := nodupb (coids d).
 
-(* ---- what the read side promises for a single path without Collectors ----
-   In GATHER order (the loop walks it reversed) every coordinate locates a node
-   of the document (a non-root parent object of the document and a parentref
-   naming one of its children), and any two coordinates with the same parent
-   name different children, the earlier one the earlier child ("document order
-   within each parent, each node once"); a negative sequence index is only
-   acceptable as the last coordinate of its parent (it is resolved against the
-   length the sequence has when its turn comes).  Computable; the harness
-   evaluates the same predicate on the real gathered NodeCoords. *)
-Definition later_ok (d : node) (o : N) (i : nat) (neg : bool) (q : option N * pyval) : bool :=
-  match target_of d (fst q) (snd q) with
-  | Some (o', j) => negb (N.eqb o' o) || (Nat.ltb i j && negb neg)
-  | None => false
-  end.
-
-Definition neg_index (d : node) (po : option N) (r : pyval) : bool :=
-  is_neg r && match po with
-              | Some o => match objs o d with NSeq _ _ :: _ => true | _ => false end
-              | None => false
-              end.
-
-Fixpoint doc_ordered (d : node) (ps : list (option N * pyval)) : bool :=
-  match ps with
-  | [] => true
-  | (po, r) :: rest =>
-      match target_of d po r with
-      | Some (o, i) => forallb (later_ok d o i (neg_index d po r)) rest && doc_ordered d rest
-      | None => false
-      end
-  end.
